@@ -13,24 +13,7 @@ func init() {
 func c02(c *q.Ctx) {
 	const utxo = "bcs/ledger/xledger/state/utxo::"
 	const st = "bcs/ledger/xledger/state::"
-	f := c.Fn(utxo + "(*UtxoVM).CheckInputEqualOutput")
-	if f != nil {
-		coinbase := []q.Cond{{Canon: "p1.Coinbase", Sense: true}}
-		// decisive comparison: sums equal, operands are the two accumulators
-		c.Guard(f, q.Cond{Canon: "(0 == big.(*Int).Cmp(big.NewInt(0){Add(self,big.NewInt(0){SetBytes(*UtxoItem*Amount*)})},big.NewInt(0){Add(self,big.NewInt(0){SetBytes(p1.TxOutputs[].Amount)})}))", Sense: false}, q.ToSuccess(), q.Opt{Unless: coinbase})
-		// coinbase arm: only with zero inputs
-		c.Guard(f, q.Cond{Canon: "(0 == big.(*Int).Cmp(big.NewInt(0){Add(self,big.NewInt(0){SetBytes(*UtxoItem*Amount*)})},big.NewInt(0)))", Sense: false}, q.ToSuccess(), q.Opt{})
-		c.Guard(f, q.Cond{Canon: "p1.Coinbase", Sense: false}, q.ToSuccess(), q.Opt{})
-		// per-input checks
-		c.MapDedup(f, "utxo.GenUtxoKey(p1.TxInputs[].FromAddr,p1.TxInputs[].RefTxid,p1.TxInputs[].RefOffset)", q.ToSuccess(), "an output cited twice by one transaction is rejected", "(#i < len(p1.TxInputs))")
-		c.Guard(f, q.Cond{Canon: "bytes.Equal(*UtxoItem*Amount*,p1.TxInputs[].Amount)", Sense: false}, q.ToSuccess(), q.Opt{})
-		c.Guard(f, q.Cond{Canon: "(p0.ledger.meta.TrunkHeight < *FrozenHeight*)", Sense: true}, q.ToSuccess(), q.Opt{})
-		c.Guard(f, q.Cond{Canon: "(-1 == *FrozenHeight*)", Sense: true}, q.ToSuccess(), q.Opt{})
-		c.Gate(f, "Database.Get", q.ToSuccess(), q.Opt{K1Only: true})
-		c.Gate(f, "UtxoItem.Loads", q.ToSuccess(), q.Opt{K1Only: true})
-		// the amount that is compared and summed comes from the cache entry or the stored row of this very input
-		c.ArgIs(f, "Database.Get", 0, "utxo.GenUtxoKey(p1.TxInputs[].FromAddr,p1.TxInputs[].RefTxid,p1.TxInputs[].RefOffset)", 1, "the stored row that is read is the cited output's")
-	}
+	inputChecks(c)
 	d := c.Fn(st + "(*State).doTxInternal")
 	if d != nil {
 		marked := []q.Cond{{Canon: "p1.ModifyBlock.Marked", Sense: true}}
@@ -52,6 +35,7 @@ func c02(c *q.Ctx) {
 	// pending producer stays applied when the producer is undone (its inputs reappear while its outputs remain)
 	poolGraph(c)
 	poolRollback(c)
+	keyLockProtocol(c)
 	// K3: who may change the total
 	callers := c.WhoCalls("UtxoVM.UpdateUtxoTotal", map[string]string{
 		st + "(*State).doTxInternal":   "play: + under tx.Coinbase",
@@ -108,4 +92,32 @@ func boolS(b bool) string {
 		return "true"
 	}
 	return "false"
+}
+
+// inputChecks: what CheckInputEqualOutput decides per input and for the sums (shared by C02 and C03: conservation
+// and "every token input is a currently unspent, unfrozen output").
+func inputChecks(c *q.Ctx) {
+	const utxo = "bcs/ledger/xledger/state/utxo::"
+	f := c.Fn(utxo + "(*UtxoVM).CheckInputEqualOutput")
+	if f != nil {
+		coinbase := []q.Cond{{Canon: "p1.Coinbase", Sense: true}}
+		// decisive comparison: sums equal, operands are the two accumulators
+		c.Guard(f, q.Cond{Canon: "(0 == big.(*Int).Cmp(big.NewInt(0){Add(self,big.NewInt(0){SetBytes(*UtxoItem*Amount*)})},big.NewInt(0){Add(self,big.NewInt(0){SetBytes(p1.TxOutputs[].Amount)})}))", Sense: false}, q.ToSuccess(), q.Opt{Unless: coinbase})
+		// coinbase arm: only with zero inputs
+		c.Guard(f, q.Cond{Canon: "(0 == big.(*Int).Cmp(big.NewInt(0){Add(self,big.NewInt(0){SetBytes(*UtxoItem*Amount*)})},big.NewInt(0)))", Sense: false}, q.ToSuccess(), q.Opt{})
+		c.Guard(f, q.Cond{Canon: "p1.Coinbase", Sense: false}, q.ToSuccess(), q.Opt{})
+		// per-input checks
+		c.MapDedup(f, "utxo.GenUtxoKey(p1.TxInputs[].FromAddr,p1.TxInputs[].RefTxid,p1.TxInputs[].RefOffset)", q.ToSuccess(), "an output cited twice by one transaction is rejected", "(#i < len(p1.TxInputs))")
+		c.Guard(f, q.Cond{Canon: "bytes.Equal(*UtxoItem*Amount*,p1.TxInputs[].Amount)", Sense: false}, q.ToSuccess(), q.Opt{})
+		// the freeze height tested is the one recorded for the cited output, whichever way it was found: the cache
+		// entry's or the stored row's (a cache hit that hands on only the amount makes every cached output unfrozen)
+		entry := "p0.UtxoCache.All[p1.TxInputs[].FromAddr][(\"U\" + utxo.GenUtxoKey(p1.TxInputs[].FromAddr,p1.TxInputs[].RefTxid,p1.TxInputs[].RefOffset))]"
+		frozen := "phi{&" + entry + ".UtxoItem.FrozenHeight|0|local<UtxoItem>.FrozenHeight}"
+		c.Guard(f, q.Cond{Canon: "(p0.ledger.meta.TrunkHeight < " + frozen + ")", Sense: true}, q.ToSuccess(), q.Opt{})
+		c.Guard(f, q.Cond{Canon: "(-1 == " + frozen + ")", Sense: true}, q.ToSuccess(), q.Opt{})
+		c.Gate(f, "Database.Get", q.ToSuccess(), q.Opt{K1Only: true})
+		c.Gate(f, "UtxoItem.Loads", q.ToSuccess(), q.Opt{K1Only: true})
+		// the amount that is compared and summed comes from the cache entry or the stored row of this very input
+		c.ArgIs(f, "Database.Get", 0, "utxo.GenUtxoKey(p1.TxInputs[].FromAddr,p1.TxInputs[].RefTxid,p1.TxInputs[].RefOffset)", 1, "the stored row that is read is the cited output's")
+	}
 }
